@@ -1,6 +1,7 @@
 package rules
 
 import (
+	"fmt"
 	"go/types"
 	"sort"
 	"strings"
@@ -80,6 +81,7 @@ func C14(ctx *core.Ctx, r *core.Report) {
 	sites := e.sites("K1 K2 K4")
 	e.record("crash", sites, c14Triage)
 	c14ModuleXorError(ctx, r)
+	c14GuardBacking(ctx, r)
 }
 
 // c14ModuleXorError (K7): in every function of the load path that returns
@@ -157,4 +159,107 @@ func errNilHere(b *ssa.BasicBlock, v ssa.Value) bool {
 		}
 	}
 	return false
+}
+
+// c14GuardBacking re-checks, on every run, the guards that the triage table's
+// reasons rely on (a triage reason that names a guard is only as good as the guard).
+func c14GuardBacking(ctx *core.Ctx, r *core.Report) {
+	// (a) applyDeviation validates the target kind before applying any deviate
+	ad := ctx.Method("meta", "resolver", "applyDeviation")
+	chk := ctx.Method("meta", "resolver", "checkDeviationTarget")
+	if ad == nil || chk == nil {
+		r.Ob("guard-backing", "meta.resolver.applyDeviation→checkDeviationTarget", "-", false, "applyDeviation no longer validates the deviation target's kind (checkDeviationTarget missing): the deviate branches dereference nil / assert unchecked")
+	} else {
+		cs := callsStatic(ad, chk, false)
+		ok, msg := len(cs) == 1, "checkDeviationTarget is not called exactly once"
+		if ok {
+			c := cs[0]
+			ev := errResult(c)
+			if ev == nil || !flowsToReturn(ev, 0, map[ssa.Value]bool{}) {
+				ok, msg = false, "the error of checkDeviationTarget is not returned"
+			}
+			// every unchecked assertion / discarded-ok use after the not-supported branch is dominated by the call
+			core.Instrs(ad, func(b *ssa.BasicBlock, in ssa.Instruction) {
+				ta, isTa := in.(*ssa.TypeAssert)
+				if !isTa || ta.CommaOk {
+					return
+				}
+				t := core.TypeName(ta.AssertedType)
+				if strings.HasSuffix(t, "HasMusts") || strings.HasSuffix(t, "meta.List") || strings.HasSuffix(t, "HasDefaultValue") {
+					if !instrDominates(c, ta) {
+						ok, msg = false, "an unchecked assertion on the deviation target ("+t+") is not dominated by checkDeviationTarget"
+					}
+				}
+			})
+			// the hasDets/hasType/hasListDets flags handed to the check are derived from the comma-ok results
+			if len(c.Common().Args) != 6 {
+				ok, msg = false, "checkDeviationTarget's signature changed"
+			}
+		}
+		r.Ob("guard-backing", "meta.resolver.applyDeviation→checkDeviationTarget", ctx.Pos(ad.Pos()), ok, msg)
+		// the check itself must be able to fail for each property group: it returns ≥ 5 distinct errors
+		nErr := 0
+		for _, ret := range core.Returns(chk) {
+			ops := core.RetOperands(ret)
+			if !core.IsNilConst(ops[len(ops)-1]) {
+				nErr++
+			}
+		}
+		r.Ob("guard-backing", "meta.resolver.checkDeviationTarget/rejects", ctx.Pos(chk.Pos()), nErr >= 5,
+			fmt.Sprintf("checkDeviationTarget has %d failing returns; it must reject config/mandatory, min/max-elements, units/default, must and unique on targets that cannot carry them", nErr))
+	}
+	// (b) Builder.Default tests HasDefault before addDefault on single-valued targets
+	if bd := ctx.Method("meta", "Builder", "Default"); bd != nil {
+		ok := false
+		for _, c := range core.CallSites(bd) {
+			if m := core.IfaceMethod(c); m == nil || m.Name() != "addDefault" {
+				continue
+			}
+			for _, c2 := range core.CallSites(bd) {
+				if m2 := core.IfaceMethod(c2); m2 == nil || m2.Name() != "HasDefault" {
+					continue
+				}
+				// a branch on HasDefault()'s result whose true side cannot reach addDefault
+				core.Instrs(bd, func(b *ssa.BasicBlock, in ssa.Instruction) {
+					ifi, isIf := in.(*ssa.If)
+					if !isIf || !dependsOn(ifi.Cond, c2.Value(), 0) {
+						return
+					}
+					if !reachableAvoiding(b.Succs[0], c.Block(), nil) && reachableAvoiding(b.Succs[1], c.Block(), nil) {
+						ok = true
+					}
+				})
+			}
+		}
+		r.Ob("guard-backing", "meta.Builder.Default/HasDefault-before-addDefault", ctx.Pos(bd.Pos()), ok,
+			"Builder.Default calls addDefault without testing HasDefault first: a second default statement panics (\"default already set\")")
+	} else {
+		r.Fatalf("anchor meta.Builder.Default not found")
+	}
+	// (c) typedef recursion guard
+	if ft := ctx.Method("meta", "compiler", "findTypedef"); ft != nil {
+		comp := ctx.Method("meta", "compiler", "compile")
+		ok := false
+		for _, c := range callsStatic(ft, comp, false) {
+			// dominated by a map lookup on a compiler field whose hit returns an error, and by a map update marking the typedef
+			marked, tested := false, false
+			core.Instrs(ft, func(_ *ssa.BasicBlock, in ssa.Instruction) {
+				switch x := in.(type) {
+				case *ssa.MapUpdate:
+					if instrDominates(x, c) {
+						marked = true
+					}
+				case *ssa.Lookup:
+					if x.CommaOk && instrDominates(x, c) {
+						tested = true
+					}
+				}
+			})
+			ok = marked && tested
+		}
+		r.Ob("guard-backing", "meta.compiler.findTypedef/visited-guard", ctx.Pos(ft.Pos()), ok,
+			"findTypedef compiles the typedef it found without first testing and marking it as in progress: a typedef chain that refers back to itself recurses until the stack is exhausted")
+	} else {
+		r.Fatalf("anchor meta.compiler.findTypedef not found")
+	}
 }
